@@ -163,9 +163,12 @@ var opNames = []string{"filter", "map", "distinct", "simple_group_by", "custom_t
 // execution node and checks (C15) that the output is itself a valid changelog
 // and consolidates to the operator applied to the consolidated input, or (C18)
 // that watermarks are monotone and no late record is created.
+// c18ForceRefire: set by C18's dispatch for its dedicated "group fired, watermark passes, group shrinks" runs.
+var c18ForceRefire bool
+
 func opScenario(r *Run, mode string) {
 	t := r.Tape
-	hdr := t.Block(12)
+	hdr := t.Block(24)
 	op := hdr.Draw(len(opNames))
 	maxSteps := 8
 	if r.Thorough() {
@@ -178,10 +181,37 @@ func opScenario(r *Run, mode string) {
 	// C18 only: a group-by keyed by a alone (no time column in the key) over a stream whose retractions carry
 	// their own, later event times (still above the source's watermark: no late data). A group can then be
 	// fired, a watermark can pass, and the group can shrink or vanish afterwards.
-	keyWithoutTime := mode == "C18" && opNames[op] == "custom_trigger_group_by" && !tcfg.watermark && hdr.Chance(1, 2)
+	if c18ForceRefire {
+		for i, n := range opNames {
+			if n == "custom_trigger_group_by" {
+				op = i
+			}
+		}
+		attrs["node"] = opNames[op]
+	}
+	keyWithoutTime := mode == "C18" && opNames[op] == "custom_trigger_group_by" && (c18ForceRefire || hdr.Chance(2, 3))
+	rw, ww := 0, 0
+	if keyWithoutTime {
+		rw, ww = 5, 5 // fire, let a watermark pass, shrink or empty the group again: short scripts must get there
+		// a counting trigger, so that groups are fired while the stream is still going on
+		tcfg = triggerCfg{counting: 1 + hdr.Draw(2), eos: hdr.Chance(1, 2)}
+	}
 
-	script := GenChangelog(t.Block(stepBlock*maxSteps+10), ChangelogCfg{MaxSteps: maxSteps, Watermarked: watermarked, Retractions: true, Dups: true,
-		Row: opRow, FinalWM: true, RetractSameTime: !keyWithoutTime, ZeroTimeMix: true,
+	rowFn := opRow
+	if keyWithoutTime && hdr.Chance(2, 3) {
+		// few groups, so that a group is fired, outlived by a watermark and emptied again within a short script
+		oneGroup := hdr.Chance(1, 2)
+		rowFn = func(t *Tape, i, sec int) []octosql.Value {
+			row := opRow(t, i, sec)
+			if oneGroup || row[0].Int == 3 {
+				row[0] = intv(1)
+			}
+			return row
+		}
+	}
+	script := GenChangelog(t.Block(stepBlock*maxSteps+10), ChangelogCfg{MaxSteps: maxSteps, Watermarked: watermarked || keyWithoutTime, Retractions: true, Dups: true,
+		Row: rowFn, FinalWM: true, FinalWMAlways: keyWithoutTime, RetractSameTime: !keyWithoutTime, ZeroTimeMix: !keyWithoutTime,
+		RetractWeight: rw, WMWeight: ww,
 		// a late insertion is still a valid changelog entry (C15 does not presuppose "no late data"; C18 does)
 		LateRecords: mode == "C15"})
 	var lookupRows [][]octosql.Value
